@@ -163,7 +163,12 @@ def build_for(manifest, pid):
     if f2 == f:
         raise Undecided('lost anchor: header slice in TcpCodec::decode')
     f = re.sub(r'^(\s*)fn decode', r'\1pub fn decode', f2, count=1)
-    f = splice_contract(f, SPEC['decode'][1], 'r')
+    clause = SPEC['decode'][1]
+    if pid == 'C10':
+        # C10 decides only the size pre-check clause; the framing clauses (and the safety of split_to) belong to C11
+        i = clause.index('            // C10: a frame whose declared size')
+        clause = clause[:clause.index('        ensures')] + '        ensures\n' + clause[i:]
+    f = splice_contract(f, clause, 'r')
     a = Asm()
     a.add('use vstd::prelude::*;\nverus! {\nglobal size_of usize == 8;\n', 'prelude', 'env')
     a.add(norm_vis(tt.const('MESSAGE_HEADER_LEN')), 'consts', 'env')
@@ -175,7 +180,8 @@ def build_for(manifest, pid):
     add_proof_fns(a, LEMMAS_SIMPLE, 'lemma')
     add_proof_fns(a, CANARY, 'canary')
     a.add('}\nfn main() {}\n')
-    return dict(asm=a, pid=pid, short=SHORT, clauses={k: v[1] for k, v in SPEC.items()}, twins={}, witness={},
+    extra = dict(only_kinds=r'postcondition not satisfied') if pid == 'C10' else {}
+    return dict(extra, asm=a, pid=pid, short=SHORT, clauses={k: v[1] for k, v in SPEC.items()}, twins={}, witness={},
                 assumptions=['%s: bytes::BytesMut behaves as a byte sequence (len, range indexing, split_to); MessageHeader::decode and '
                              'TcpCodec::decode_message are functions of the bytes they are given (no hidden state)' % pid])
 
